@@ -90,6 +90,8 @@ P_BUILTIN_CALLS = [
     ("up", "Ab"), ("up", "ab"), ("up", "ÉÀ"), ("anyline", "abc\n"), ("anyline", "abc"), ("alnum", "a1_"), ("alnum", "_"),
     ("bin", "0179"), ("bin", "2"), ("id", "_a1-"), ("id", "1a"), ("doc", "a = 1 b=0x1f c = d"), ("doc", "a = 1 b=0x"), ("doc", "a = \n ?"),
     ("greek", "αβγ12"), ("greek", "abc"), ("kw", "abc"), ("kw", "ab"), ("kw", "bac"), ("kw", "c"), ("kws", "ab, a ,abc,bac"), ("kws", "abcc"), ("op", "==="), ("op", "<="), ("op", "=>"), ("cmp", "a === b"), ("cmp", "a <= 1"), ("cmp", "a == = b"), ("rg", "ax"), ("rg", "a1"), ("rg", "1"), ("rg", "cz4"), ("rg", "cz5x"),
+    # runs of two and more implicit-trivia characters
+    ("doc", "a  =  1   b = \n\n 0x1f"), ("cmp", "a   ===  b"), ("kws", "ab ,  a"), ("num", "1  .5"),
 ]
 
 # twin of P-builtin: same rule names, same literal/range SETS in every choice, other order
@@ -126,10 +128,10 @@ P_TWIN2_CALLS = [("top", "a;b|c"), ("top", "a,b"), ("top", "a\t;\nb"), ("list", 
 
 BUNDLED_CALLS = {
     "tests/grammars/json.pest": [("json", '{"a": [1, 2.5e3, true, null, "x\\n"], "b": {}}'), ("json", '{"a": [1, 2,]}'), ("json", "[1, 2"), ("json", '{"a" 1}'), ("value", "-0.5"), ("value", "tru"), ("string", '"a\\u00e9"'), ("string", '"a')],
-    "examples/json/json.pest": [("json", '{"k": [1, -2.0, false], "s": "q"}'), ("json", '{"k": }'), ("json", "[1 2]"), ("value", "null"), ("number", "1e"), ("string", '"x')],
+    "examples/json/json.pest": [("json", '{"k":   [1,  -2.0,\n\n false], "s": "q"}'), ("json", '{"k": [1, -2.0, false], "s": "q"}'), ("json", '{"k": }'), ("json", "[1 2]"), ("value", "null"), ("number", "1e"), ("string", '"x')],
     "examples/csv/csv.pest": [("file", "1,2.5\n-3,4\n"), ("file", "1,2\n3,,4\n"), ("file", "1,2"), ("record", "1,2,3"), ("field", "a")],
     "examples/ini/ini.pest": [("file", "[sec]\nname = val\n\nk=v\n"), ("file", "[sec\nk=v\n"), ("file", "k = v"), ("property", "a=b"), ("section", "[a b]")],
-    "examples/calculator/calculator.pest": [("program", "1 + 2 * 3"), ("program", "-x! ^ (2 - 1)"), ("program", "(1 + 2"), ("program", "1 +"), ("program", "01"), ("expr", "a*b"), ("int", "007")],
+    "examples/calculator/calculator.pest": [("program", "1  +  2 \t* 3"), ("program", "1 + 2 * 3"), ("program", "-x! ^ (2 - 1)"), ("program", "(1 + 2"), ("program", "1 +"), ("program", "01"), ("expr", "a*b"), ("int", "007")],
     "examples/calculator/grammar_encoded_prec.pest": [("program", "1 + 2 * 3"), ("program", "-x! ^ (2 - 1)"), ("program", "(1 + 2"), ("program", "1 + * 2"), ("expr", "a/b-c")],
     "tests/grammars/lists.pest": [("lists", "- a\n- b"), ("lists", "- a\n  - b\n  - c\n- d"), ("lists", "- a\n  - b\n - c"), ("lists", "a"), ("lists", "- a\n    - b\n  - c")],
     "tests/grammars/surround.pest": [("Quote", "(abc)"), ("Quote", "<a(b>"), ("Quote", "(abc>"), ("Quote", "abc")],
